@@ -167,7 +167,7 @@ def rnd_history(rnd, nops, zst):
                 a = {}
         elif k < 0.42:    # queries
             op = rnd.choice(["compute_end_offset", "len", "ptr_guard", "ptr_guard", "get_atomic_ref", "aligned_as_ref",
-                             "aligned_as_mut"])
+                             "aligned_as_mut", "bv_from_slice", "bv_from_mut_slice"])
             if op == "compute_end_offset":
                 a = {"base": pos(), "off": cnt()}
                 if rnd.random() < 0.1:
@@ -177,6 +177,9 @@ def rnd_history(rnd, nops, zst):
             elif op in ("aligned_as_ref", "aligned_as_mut"):
                 e, al = rnd.choice(ALIGNED)
                 a = {"o": pos(), "esz": e, "al": al}
+            elif op in ("bv_from_slice", "bv_from_mut_slice"):
+                e, al = rnd.choice(ALIGNED)
+                a = {"o": pos(), "n": rnd.choice([e, e, e, e, e - 1, e + 1, 0, 2 * e]), "esz": e, "al": al}
             else:
                 a = {}
         else:             # data
